@@ -1,12 +1,12 @@
 #!/usr/bin/env python3
-"""usage: tools/install_seed.py <ID e.g. C03-2> <what_breaks> <needs>
+"""usage: tools/install_seed.py <ID e.g. C03-2> <what_breaks> <needs> [worktree-id]
 Confirms the sub-agent's change in its scratch worktree /tmp/seedwork/<ID> with tools/verify_seed.sh (build, unedited
 suite passes, demonstration fails with / passes without) and, only if confirmed, copies it to /verif/seeded/<ID>/
 with a meta.json. demo.diff is preferred over demo.sh when both exist (deterministic)."""
 import json, os, shutil, subprocess, sys, tempfile
 HERE = os.path.dirname(os.path.dirname(os.path.abspath(__file__)))
 sid, what, needs = sys.argv[1:4]
-wt, out = f"/tmp/seedwork/{sid}", f"/tmp/seedwork/out/{sid}"
+wt, out = f"/tmp/seedwork/{sys.argv[4] if len(sys.argv) > 4 else sid}", f"/tmp/seedwork/out/{sid}"
 vdir = out
 if os.path.exists(f"{out}/demo.diff") and os.path.exists(f"{out}/demo.sh"):
     vdir = tempfile.mkdtemp(prefix="vseed-", dir="/tmp/seedwork")
